@@ -545,6 +545,10 @@ def run(ctx):
             script = script[:at + 1] + [('recv_bg', ch.draw(3, 'k'))] + rest
             if ch.draw(2, 'server_rejects_1011b'):
                 cfg['reject_close_codes'] = [1011]
+    if cfg.get('reject_close_codes'):
+        # make the refusal matter: half of the script's explicit closes use the refused code
+        script = [('close', 1011, op[2]) if op[0] == 'close' and ch.draw(2, 'close_1011') else op
+                  for op in script]
     cfg['max_steps'] = 3000
     ctx.plan = {'cfg': dict(cfg), 'app': {k: (list(v) if isinstance(v, tuple) else v)
                                           for k, v in app_cfg.items()},
